@@ -436,6 +436,8 @@ struct XlsCase {
     sst: Vec<String>,
     cells: Vec<BinCell>,
     seed: u64,
+    /// write the SST with CONTINUE cuts inside the strings and a fresh 8/16-bit packing choice per segment
+    split: bool,
 }
 
 #[derive(Clone, Debug)]
@@ -494,8 +496,9 @@ impl Case {
                 c.cells.iter().map(bin_text).collect::<Vec<_>>().join(";")
             ),
             Case::Xls(c) => format!(
-                "xls|{}|{}|{}",
+                "xls|{}{}|{}|{}",
                 c.seed,
+                if c.split { "c" } else { "" },
                 c.sst.iter().map(|s| format!("={}", hx(s.as_bytes()))).collect::<Vec<_>>().join(";"),
                 c.cells.iter().map(bin_text).collect::<Vec<_>>().join(";")
             ),
@@ -524,7 +527,8 @@ impl Case {
                 cells: list(p[2]).iter().map(|c| parse_bin(c)).collect(),
             }),
             "xls" => Case::Xls(XlsCase {
-                seed: p[1].parse().unwrap(),
+                seed: p[1].trim_end_matches('c').parse().unwrap(),
+                split: p[1].ends_with('c'),
                 sst: list(p[2]).iter().map(|s| unhx_s(&s[1..])).collect(),
                 cells: list(p[3]).iter().map(|c| parse_bin(c)).collect(),
             }),
@@ -1255,10 +1259,92 @@ fn xlsb_bytes(c: &XlsbCase) -> Vec<u8> {
     b.to_bytes()
 }
 
-fn xls_bytes(c: &XlsCase) -> Vec<u8> {
+/// SST + CONTINUE payloads with record boundaries *inside* the strings: every segment of a string chooses
+/// its own storage (8-bit when all its units are < 0x100, else 16-bit), so the packing may switch at a
+/// boundary in both directions (MS-XLS 2.5.293: the continuation starts with a fresh fHighByte flag).
+/// Returns the fragments and the number of (8→16, 16→8) switches written.
+fn xls_sst_split(strings: &[String], rng: &mut Rng) -> (Vec<Vec<u8>>, (u64, u64)) {
+    const MAX: usize = 8224;
+    let mut frags: Vec<Vec<u8>> = vec![];
+    let mut cur: Vec<u8> = vec![];
+    let mut sw = (0u64, 0u64);
+    cur.extend_from_slice(&(strings.len() as u32 + 1).to_le_bytes());
+    cur.extend_from_slice(&(strings.len() as u32).to_le_bytes());
+    for s in strings {
+        let u: Vec<u16> = s.encode_utf16().collect();
+        if cur.len() + 3 > MAX {
+            frags.push(std::mem::take(&mut cur));
+        }
+        if u.is_empty() {
+            cur.extend_from_slice(&[0, 0, 0]);
+            continue;
+        }
+        // cut points: the places where the text changes between Latin-1 and wider characters, and random ones
+        let mut cuts: Vec<usize> = vec![];
+        for i in 1..u.len() {
+            let low = (0xDC00..0xE000).contains(&u[i]);
+            let transition = (u[i - 1] < 256) != (u[i] < 256);
+            if !low && ((transition && rng.chance(3, 4)) || rng.chance(1, 12.max(u.len() as u64 / 3))) {
+                cuts.push(i);
+            }
+        }
+        let mut pos = 0;
+        let mut first = true;
+        let mut prev8: Option<bool> = None;
+        loop {
+            let end = cuts.iter().copied().find(|c| *c > pos).unwrap_or(u.len());
+            let use8 = u[pos..end].iter().all(|x| *x < 256) && rng.chance(3, 4);
+            let unit = if use8 { 1 } else { 2 };
+            let hdr = if first { 3 } else { 1 };
+            let room = MAX.saturating_sub(cur.len() + hdr) / unit;
+            let mut n = (end - pos).min(room);
+            if n > 0 && pos + n < u.len() && (0xDC00..0xE000).contains(&u[pos + n]) {
+                n -= 1;
+            }
+            if n == 0 {
+                // no room for a single character: next record (the string header is never split)
+                frags.push(std::mem::take(&mut cur));
+                continue;
+            }
+            if first {
+                cur.extend_from_slice(&(u.len() as u16).to_le_bytes());
+            }
+            cur.push(if use8 { 0 } else { 1 });
+            for x in &u[pos..pos + n] {
+                if use8 {
+                    cur.push(*x as u8);
+                } else {
+                    cur.extend_from_slice(&x.to_le_bytes());
+                }
+            }
+            match prev8 {
+                Some(true) if !use8 => sw.0 += 1,
+                Some(false) if use8 => sw.1 += 1,
+                _ => {}
+            }
+            prev8 = Some(use8);
+            pos += n;
+            first = false;
+            if pos >= u.len() {
+                break;
+            }
+            frags.push(std::mem::take(&mut cur));
+        }
+    }
+    frags.push(cur);
+    (frags, sw)
+}
+
+fn xls_bytes(c: &XlsCase) -> (Vec<u8>, (u64, u64)) {
     let mut rng = Rng::new(c.seed);
     let mut b = xlsw::XlsBook::new();
     b.sst = c.sst.clone();
+    let mut sw = (0, 0);
+    if c.split {
+        let (frags, n) = xls_sst_split(&c.sst, &mut rng);
+        b.sst_raw = Some(frags);
+        sw = n;
+    }
     let mut s = xlsw::XlsSheet::new("S");
     for (i, cell) in c.cells.iter().enumerate() {
         let text = String::from_utf16_lossy(&cell.units);
@@ -1270,7 +1356,7 @@ fn xls_bytes(c: &XlsCase) -> Vec<u8> {
         s.cells.push(xlsw::XlsCell::new(i as u16, 0, v));
     }
     b.sheets.push(s);
-    b.to_bytes(&mut rng)
+    (b.to_bytes(&mut rng), sw)
 }
 
 // ------------------------------------------------------------------------------------------------
@@ -1560,7 +1646,9 @@ fn run_case_inner(case: &Case, drv: &mut Driver, rep: &mut Stats) -> Outcome {
             Outcome { cells, file_hash, stats: vec![] }
         }
         Case::Xls(c) => {
-            let bytes = timed(rep, "time_us.write", || xls_bytes(c));
+            let (bytes, sw) = timed(rep, "time_us.write", || xls_bytes(c));
+            rep.add("xls.sst.packing_switch_at_continue.8_to_16", sw.0);
+            rep.add("xls.sst.packing_switch_at_continue.16_to_8", sw.1);
             let file_hash = verif_harness::fnv64(&bytes);
             rep.add("bytes.xls", bytes.len() as u64);
             let t_imp = std::time::Instant::now();
@@ -1826,6 +1914,7 @@ fn corpus() -> Vec<Case> {
             ],
         }));
         v.push(Case::Xls(XlsCase {
+            split: false,
             seed: 1,
             sst: vec![s.into()],
             cells: vec![
@@ -1836,7 +1925,23 @@ fn corpus() -> Vec<Case> {
         }));
     }
     // D36 (xls): an empty LABEL / shared / formula string
+    // seeded C19-m3: a shared string cut by CONTINUE records with the 8/16-bit packing switching at the cut
+    for (k, s) in ["abcdΩΩΩΩ", "ΩΩΩΩabcd", "ab\u{3A9}cd\u{3A9}ef", "é😀x日本y"].iter().enumerate() {
+        for seed in 0..4u64 {
+            v.push(Case::Xls(XlsCase {
+                split: true,
+                seed: 100 + 10 * k as u64 + seed,
+                sst: vec!["first".into(), s.to_string(), "last".into()],
+                cells: vec![
+                    BinCell { kind: "isst".into(), isst: 0, units: vec![], expect: "first".into(), label: "xls.shared.item.split".into() },
+                    BinCell { kind: "isst".into(), isst: 1, units: vec![], expect: s.to_string(), label: "xls.shared.item.split".into() },
+                    BinCell { kind: "isst".into(), isst: 2, units: vec![], expect: "last".into(), label: "xls.shared.item.split".into() },
+                ],
+            }));
+        }
+    }
     v.push(Case::Xls(XlsCase {
+        split: false,
         seed: 2,
         sst: vec!["".into(), "a".into()],
         cells: vec![
@@ -1946,7 +2051,15 @@ fn expand(job: Job) -> Vec<Case> {
                 // LABEL / STRING records hold at most one record of text in the shared writer
                 let cells: Vec<BinCell> = cells.into_iter().filter(|c| c.kind == "isst" || c.units.len() <= 255).collect();
                 let texts: Vec<String> = sst.iter().map(|(_, u, _)| String::from_utf16_lossy(u)).collect();
-                cases.push(Case::Xls(XlsCase { sst: texts, cells, seed: r.next() }));
+                let seed = r.next();
+                // the same table once more with CONTINUE cuts inside the strings and per-segment packing
+                let scells: Vec<BinCell> = cells
+                    .iter()
+                    .filter(|c| c.kind == "isst")
+                    .map(|c| BinCell { label: format!("{}.split", c.label), ..c.clone() })
+                    .collect();
+                cases.push(Case::Xls(XlsCase { sst: texts.clone(), cells: scells, seed: seed ^ 0x5555, split: true }));
+                cases.push(Case::Xls(XlsCase { sst: texts, cells, seed, split: false }));
             }
             cases
         }
